@@ -190,6 +190,24 @@ class Function:
         self._nodes = None
         self._pred = None
         self._localdefs = None
+        self._inline_lvalues()
+
+    def _inline_lvalues(self):
+        """`a->f = c ? x : y` evaluates the lvalue in an earlier block; the assignment node then
+        only holds an {"k":"x"} reference as its lhs.  Put the (call-free) lvalue expression
+        back so that rules matching `lhs` see the field that is written."""
+        todo = []
+        for bid, i, r in self.roots():
+            for n in walk(r):
+                if n.get("k") == "asg" and isinstance(n.get("lhs"), dict) and n["lhs"].get("k") == "x":
+                    todo.append(n)
+        for n in todo:
+            tgt = self.resolve_x(n["lhs"])
+            if tgt is None or tgt.get("k") not in ("mem", "idx", "ref", "un", "cast"):
+                continue
+            if any(y.get("k") in ("call", "asg", "x") for y in walk(tgt)):
+                continue
+            n["lhs"] = tgt
 
     def __repr__(self):
         return "<fn %s %s:%d>" % (self.name, self.file, self.line)
